@@ -8,6 +8,7 @@
 mod areas;
 mod geom;
 mod hist;
+mod ljcheck;
 mod obs;
 mod oracle;
 mod optrace;
@@ -110,6 +111,9 @@ fn main() {
             m.get("tier").map(|t| t == "thorough").unwrap_or(false),
             m.get("seed").and_then(|s| s.parse().ok()).unwrap_or(1),
         ),
+        "parser" => geom::parser(m.get("in").expect("--in"), m.get("out").expect("--out")),
+        "lattice" => geom::lattice(m.get("in").expect("--in"), m.get("out").expect("--out")),
+        "lj" => ljcheck::lj(m.get("in").expect("--in"), m.get("out").expect("--out")),
         "tables" => geom::tables(m.get("out").expect("--out")),
         "crystal" => geom::crystal(m.get("in").expect("--in"), m.get("out").expect("--out")),
         _ => {
